@@ -377,102 +377,63 @@ func ruleOperatorAlphabet(c *eng.Ctx) {
 		c.Undec(R, "contentstream.(*Parser).parseNext", token.NoPos, "anchor not found")
 		return
 	}
-	// S: the condition of the if statement whose body returns p.parseOperator()
-	var startCond ast.Expr
-	ast.Inspect(fdNext.Decl.Body, func(n ast.Node) bool {
-		is, ok := n.(*ast.IfStmt)
-		if !ok {
-			return true
-		}
-		for _, s := range is.Body.List {
-			if rs, ok := s.(*ast.ReturnStmt); ok && len(rs.Results) == 1 {
-				if call, ok := rs.Results[0].(*ast.CallExpr); ok && strings.HasSuffix(types.ExprString(call.Fun), "parseOperator") {
-					startCond = is.Cond
-				}
-			}
-		}
-		return true
-	})
-	if startCond == nil {
-		c.Undec(R, "contentstream.(*Parser).parseNext#operator-start", fdNext.Decl.Pos(), "cannot find the test that routes to parseOperator")
+	// S: the bytes for which parseNext can reach the call of parseOperator, computed on the SSA form with the
+	// current byte fixed (atKeywordOperand taken as false: a token that is not true/false/null)
+	fnNext := c.P.Func("contentstream.(*Parser).parseNext")
+	fnOp := c.P.Func("contentstream.(*Parser).parseOperator")
+	if fnNext == nil || fnOp == nil {
+		c.Undec(R, "contentstream.(*Parser).parseNext", token.NoPos, "anchor not found")
 		return
 	}
-	byteVar := func(fd *eng.FuncDecl, e ast.Expr) string {
-		name := ""
-		ast.Inspect(e, func(n ast.Node) bool {
-			if id, ok := n.(*ast.Ident); ok {
-				if t := fd.Pkg.TypesInfo.TypeOf(id); t != nil {
-					if b, ok := t.Underlying().(*types.Basic); ok && b.Kind() == types.Uint8 {
-						if _, isVar := fd.Pkg.TypesInfo.Uses[id].(*types.Var); isVar {
-							name = id.Name
-						}
-					}
-				}
-			}
+	notKeyword := func(call *ssa.Call) (int64, bool) {
+		if strings.HasSuffix(eng.CalleeName(call), "atKeywordOperand") {
+			return 0, true
+		}
+		return 0, false
+	}
+	routes := 0
+	S := eng.ByteReach(fnNext, eng.DefaultByteVar, func(in ssa.Instruction) bool {
+		if ci, ok := in.(ssa.CallInstruction); ok && ci.Common().StaticCallee() == fnOp {
+			routes++
 			return true
+		}
+		return false
+	}, notKeyword)
+	if routes == 0 {
+		c.Undec(R, "contentstream.(*Parser).parseNext#operator-start", fnNext.Pos(), "cannot find the call that routes to parseOperator")
+		return
+	}
+	// K: the bytes the scanning loop of parseOperator (or of the helper it was extracted into) appends to the name
+	var K [256]bool
+	accepts := 0
+	for _, h := range eng.Cluster(fnOp, 2) {
+		has := false
+		eng.Instrs(h, false, func(in ssa.Instruction) {
+			if ci, ok := in.(ssa.CallInstruction); ok && strings.HasSuffix(eng.CalleeName(ci), ".WriteByte") {
+				has = true
+			}
 		})
-		return name
-	}
-	notKeyword := func(name string) (any, bool) {
-		if strings.HasSuffix(name, "atKeywordOperand") {
-			return false, true // a token that is not true/false/null
+		if !has {
+			continue
 		}
-		return nil, false
-	}
-	S, err := c.P.ExprByteSet(fdNext, startCond, byteVar(fdNext, startCond), notKeyword)
-	if err != nil {
-		c.Undec(R, "contentstream.(*Parser).parseNext#operator-start", startCond.Pos(), "operator-start test is not a closed byte predicate: "+err.Error())
-		return
-	}
-	// K: the condition inside parseOperator's scanning loop that accepts a byte
-	var contCond ast.Expr
-	// the scanning loop may have been extracted into a helper method (readOperatorName)
-	bodies := []*ast.BlockStmt{fdOp.Decl.Body}
-	ast.Inspect(fdOp.Decl.Body, func(n ast.Node) bool {
-		if call, ok := n.(*ast.CallExpr); ok {
-			if b := localHelperBody(fdOp, call); b != nil {
-				bodies = append(bodies, b)
-			}
+		accepts++
+		kk := eng.ByteReach(h, eng.DefaultByteVar, func(in ssa.Instruction) bool {
+			ci, ok := in.(ssa.CallInstruction)
+			return ok && strings.HasSuffix(eng.CalleeName(ci), ".WriteByte")
+		}, nil)
+		for i := range kk {
+			K[i] = K[i] || kk[i]
 		}
-		return true
-	})
-	for _, body := range bodies {
-		ast.Inspect(body, func(n ast.Node) bool {
-			fs, ok := n.(*ast.ForStmt)
-			if !ok || contCond != nil {
-				return true
-			}
-			ast.Inspect(fs.Body, func(m ast.Node) bool {
-				is, ok := m.(*ast.IfStmt)
-				if !ok || contCond != nil {
-					return true
-				}
-				// body writes the byte and advances
-				txt := ""
-				for _, s := range is.Body.List {
-					txt += types.ExprString(exprOfStmt(s)) + ";"
-				}
-				if strings.Contains(txt, "WriteByte") || strings.Contains(txt, "p.pos") {
-					contCond = is.Cond
-				}
-				return true
-			})
-			return true
-		})
 	}
-	if contCond == nil {
-		c.Undec(R, "contentstream.(*Parser).parseOperator#operator-continue", fdOp.Decl.Pos(), "cannot find the test that accepts operator bytes")
+	if accepts == 0 {
+		c.Undec(R, "contentstream.(*Parser).parseOperator#operator-continue", fnOp.Pos(), "cannot find the loop that accepts operator bytes")
 		return
 	}
-	K, err := c.P.ExprByteSet(fdOp, contCond, byteVar(fdOp, contCond), nil)
-	if err != nil {
-		c.Undec(R, "contentstream.(*Parser).parseOperator#operator-continue", contCond.Pos(), "operator-continue test is not a closed byte predicate: "+err.Error())
-		return
-	}
+	startPos := fnNext.Pos()
 	// no operand-start byte may be an operator start: digits, sign, '.', '(', '<', '/', '['
 	for _, b := range []byte("0123456789+-.(<[/") {
 		if S[b] {
-			c.Viol(R, "contentstream.(*Parser).parseNext#operand-start "+string(b), startCond.Pos(), fmt.Sprintf("byte %q starts an operand but is routed to the operator parser", rune(b)))
+			c.Viol(R, "contentstream.(*Parser).parseNext#operand-start "+string(b), startPos, fmt.Sprintf("byte %q starts an operand but is routed to the operator parser", rune(b)))
 		}
 	}
 	ops := map[string]string{}
@@ -518,21 +479,29 @@ func ruleOperatorAlphabet(c *eng.Ctx) {
 			}
 		}
 		if bad != "" {
-			c.Viol(R, key, startCond.Pos(), fmt.Sprintf("operator %s (%s) cannot be tokenised: %s", o, ops[o], bad))
+			c.Viol(R, key, startPos, fmt.Sprintf("operator %s (%s) cannot be tokenised: %s", o, ops[o], bad))
 		} else {
-			c.Ok(R, key, startCond.Pos(), "tokenisable ("+ops[o]+")")
+			c.Ok(R, key, startPos, "tokenisable ("+ops[o]+")")
 		}
 	}
 	// keyword operands
 	if fd := c.P.Decl("contentstream.(*Parser).atKeywordOperand"); fd == nil {
 		c.Viol(R, "contentstream keywords", fdNext.Decl.Pos(), "true/false/null are not distinguished from operators before routing to parseOperator")
 	} else {
-		labels, _ := caseTable(fd)
-		okK := labels["true"] == labels["false"] && len(labels) == 3
-		_, a := labels["true"]
-		_, b := labels["false"]
-		_, d := labels["null"]
-		c.Check(okK && a && b && d, R, "contentstream.(*Parser).atKeywordOperand", fd.Decl.Pos(), "exactly true, false and null are operands", "the keyword-operand set is no longer exactly {true,false,null}")
+		// the strings the token is compared with, however the comparison is spelled (switch, ==, ||)
+		labels := map[string]bool{}
+		if fnK := c.P.Func("contentstream.(*Parser).atKeywordOperand"); fnK != nil {
+			eng.Instrs(fnK, false, func(in ssa.Instruction) {
+				if b, ok := in.(*ssa.BinOp); ok && b.Op == token.EQL {
+					for _, v := range []ssa.Value{b.X, b.Y} {
+						if cs, ok := eng.ConstString(v); ok {
+							labels[cs] = true
+						}
+					}
+				}
+			})
+		}
+		c.Check(len(labels) == 3 && labels["true"] && labels["false"] && labels["null"], R, "contentstream.(*Parser).atKeywordOperand", fd.Decl.Pos(), "exactly true, false and null are operands", "the keyword-operand set is no longer exactly {true,false,null}")
 	}
 	if fd := c.P.Decl("contentstream.(*Parser).regularRunEnd"); fd != nil {
 		var cond ast.Expr
